@@ -148,3 +148,44 @@ Theorem rescale_create_arcs :
              (k_nclusters (fst r)),
        map f (snd r)).
 Proof. exact RescaleKnn.rescale_create_arcs. Qed.
+
+(* The library compares with ONE constant FLOAT_MAX whatever the metric: second run with its own
+   sentinel [top2] (e.g. [top2 = top1]) instead of [f top1].  Enough: the sentinel compares with
+   the transformed weights as it did with the originals.  Each cost is mapped by [f], or is the
+   sentinel in both runs. *)
+Theorem monotone_transform_same_sentinel :
+  forall (W1 W2 : Type) (P : W1 -> Prop) (f : W1 -> W2)
+         (ltb1 : W1 -> W1 -> bool) (ltb2 : W2 -> W2 -> bool)
+         (zero1 top1 : W1) (zero2 top2 : W2),
+    (forall a b, P a -> P b -> ltb2 (f a) (f b) = ltb1 a b) ->
+    (forall a, P a -> ltb2 (f a) top2 = ltb1 a top1) ->
+    (forall a, P a -> ltb2 top2 (f a) = ltb1 top1 a) ->
+    ltb2 top2 top2 = ltb1 top1 top1 ->
+    zero2 = f zero1 -> P zero1 ->
+    forall (labels : list nat) (w1 : nat -> nat -> W1) (w2 : nat -> nat -> W2),
+      (forall p q, P (w1 p q)) -> (forall p q, w2 p q = f (w1 p q)) ->
+      let a := sup_fit ltb1 zero1 top1 labels w1 in
+      let b := sup_fit ltb2 zero2 top2 labels w2 in
+      Forall2 (fun x y => (P x /\ y = f x) \/ (x = top1 /\ y = top2)) (n_cost a) (n_cost b) /\
+      n_pred a = n_pred b /\ n_label a = n_label b /\ n_plabel a = n_plabel b /\
+      n_status a = n_status b /\ n_relevant a = n_relevant b /\ n_order a = n_order b.
+Proof. exact (@Rescale.monotone_transform_sentinel). Qed.
+
+Theorem monotone_transform_same_sentinel_predictions :
+  forall (W1 W2 : Type) (P : W1 -> Prop) (f : W1 -> W2)
+         (ltb1 : W1 -> W1 -> bool) (ltb2 : W2 -> W2 -> bool)
+         (zero1 top1 : W1) (zero2 top2 : W2),
+    (forall a b, P a -> P b -> ltb2 (f a) (f b) = ltb1 a b) ->
+    (forall a, P a -> ltb2 (f a) top2 = ltb1 a top1) ->
+    (forall a, P a -> ltb2 top2 (f a) = ltb1 top1 a) ->
+    ltb2 top2 top2 = ltb1 top1 top1 ->
+    zero2 = f zero1 -> P zero1 ->
+    forall (labels : list nat) (w1 : nat -> nat -> W1) (w2 : nat -> nat -> W2)
+           (ds1 : list (nat -> W1)) (ds2 : list (nat -> W2)),
+      (forall p q, P (w1 p q)) -> (forall p q, w2 p q = f (w1 p q)) ->
+      Forall2 (fun d1 d2 => forall k, P (d1 k) /\ d2 k = f (d1 k)) ds1 ds2 ->
+      snd (predict_batch ltb1 zero1 (sup_fit ltb1 zero1 top1 labels w1) ds1)
+      = snd (predict_batch ltb2 zero2 (sup_fit ltb2 zero2 top2 labels w2) ds2) /\
+      n_relevant (fst (predict_batch ltb1 zero1 (sup_fit ltb1 zero1 top1 labels w1) ds1))
+      = n_relevant (fst (predict_batch ltb2 zero2 (sup_fit ltb2 zero2 top2 labels w2) ds2)).
+Proof. exact (@Rescale.monotone_transform_sentinel_predict). Qed.
